@@ -4,6 +4,7 @@
   (gaps, huge ids, duplicates where stated).
 -/
 import PptxModel.Model.Ids
+import PptxModel.Props.C02
 import Std.Data.String.ToNat
 namespace Pptx.C06
 open Pptx Pptx.Ids
@@ -395,6 +396,14 @@ theorem turbo_collides_without_resync :
 theorem turbo_second_proxy_collides :
     ¬ (run ⟨[1], none⟩ [.turboOn, .viaOtherProxy, .viaCollection]).ids.Nodup := by
   decide
+
+/-- **Slide parts are named slide1..n in presentation order** once the slide collection has been accessed, and stay so
+    after every added slide, also when the package holds `k` slide parts the slide-id list does not mention; all slide
+    part names in the package are pairwise distinct (the numbering model of `Model/Pkg.lean`, proved in `Props/C02`) -/
+theorem slide_parts_sequential (n k j : Nat) :
+    (Pkg.numbersAfter n k j).listed = List.range' 1 (n + j) ∧
+    ((Pkg.numbersAfter n k j).listed ++ (Pkg.numbersAfter n k j).unlisted).Nodup :=
+  ⟨(C02.slide_numbers_nodup n k j).1, (C02.slide_numbers_nodup n k j).2.1⟩
 
 example : (run ⟨[1, 5, 2], none⟩ [.viaCollection, .viaElement, .viaOtherProxy]).ids = [7, 3, 6, 1, 5, 2] := by
   decide
